@@ -14,7 +14,7 @@ from ..oracles import catalogue
 
 ID = "C04"
 LEVEL = "exploration"
-MONITORS = ["module", "dyad"]
+MONITORS = ["module", "dyad", "signal"]
 ANCHORS = ["core_objects.py", "modules/filter.py", "modules/assembly.py", "modules/linalg.py"]
 RULE = ("case = one configuration from the module catalogue; per case: 3 seedings for linearity (w1, w2, a*w1+b*w2 with partial seeds), "
         "one double sensitivity(), digests of all states/sensitivities around every call; distinct = option-class key; non-trivial = "
@@ -25,8 +25,20 @@ ASSUMPTIONS = [
     "a seed array that a module masks idempotently in place (AssembleGeneral zeroes boundary-condition rows/columns of its seed) is "
     "reported as counter seed_mutated_idempotent, not as a violation; non-idempotent mutation shows through the 'twice' clause",
 ]
-FLOORS = {"quick": {"cases_held": 600, "linearity_checks": 600, "twice_checks": 600, "mon_sensitivity": 3000, "mon_reset": 2000},
-          "thorough": {"cases_held": 6000, "linearity_checks": 6000, "twice_checks": 6000, "mon_sensitivity": 30000, "mon_reset": 20000}}
+FLOORS = {"quick": {"cases_held": 600, "linearity_checks": 600, "twice_checks": 600, "mon_sensitivity": 3000, "mon_reset": 2000,
+                    "examples_completed": 12, "example_monitored_calls": 1000},
+          "thorough": {"cases_held": 6000, "linearity_checks": 6000, "twice_checks": 6000, "mon_sensitivity": 30000, "mon_reset": 20000,
+                       "examples_completed": 36, "example_monitored_calls": 5000}}
+TIMEOUT_CASE = 600
+
+
+def _examples():
+    import glob
+    import os
+    root = os.path.join(os.environ.get("PMV_REPO", "/repo"), "examples")
+    if not os.path.isdir(root):
+        root = "/repo/examples"
+    return sorted(os.path.relpath(p, root) for p in glob.glob(os.path.join(root, "**", "*.py"), recursive=True)), root
 
 
 def plan(tier, seed):
@@ -34,7 +46,66 @@ def plan(tier, seed):
     fams = []
     for f, w in catalogue.WEIGHTS.items():
         fams += [f] * w
-    return [{"family": fams[i % len(fams)], "i": i} for i in range(n)]
+    cases = [{"family": fams[i % len(fams)], "i": i} for i in range(n)]
+    # the repository's own example scripts as end-to-end workloads under the purity monitors
+    ex, _ = _examples()
+    for mesh in ([(12, 6, 4)] if tier == "quick" else [(12, 6, 4), (8, 8, 2), (16, 4, 4)]):
+        cases += [{"family": "example", "script": e, "mesh": list(mesh), "maxit": 4 if tier == "quick" else 8} for e in ex]
+    return cases
+
+
+def run_example(case, ctx):
+    """exec one shipped example headless with a shrunk mesh and a few optimiser iterations; the verdict comes only from the
+    ModuleMonitor / DyadInvariant clauses that fire while it runs (exceptions of the script itself are not C04's business)."""
+    import contextlib
+    import io
+    import os
+    import re
+    import tempfile
+    import pymoto as pym
+    from ..monitors import STATE
+    _, root = _examples()
+    path = os.path.join(root, case["script"])
+    src = open(path).read()
+    nx, ny, nz = case["mesh"]
+    src = re.sub(r"^nx, ny, nz = \d+, \d+, (\d+)", lambda m: f"nx, ny, nz = {nx}, {ny}, {0 if m.group(1) == '0' else nz}", src, flags=re.M)
+    src = re.sub(r"^nx, ny = .*$", f"nx, ny = {nx}, {ny}", src, flags=re.M)
+    o_mma, o_oc = pym.minimize_mma, pym.minimize_oc
+
+    def mma(*a, **k):
+        k["maxit"], k["verbosity"] = case["maxit"], 0
+        return o_mma(*a, **k)
+
+    def oc(*a, **k):
+        k["maxit"], k["verbosity"] = case["maxit"], 0
+        return o_oc(*a, **k)
+    pym.minimize_mma, pym.minimize_oc = mma, oc
+    before = STATE.counters["mon_response"] + STATE.counters["mon_sensitivity"]
+    cwd = os.getcwd()
+    status = "completed"
+    with tempfile.TemporaryDirectory() as tmp:
+        os.chdir(tmp)
+        try:
+            with contextlib.redirect_stdout(io.StringIO()), warnings.catch_warnings():
+                warnings.simplefilter("ignore")
+                exec(compile(src, path, "exec"), {"__name__": "__main__", "__file__": path})
+        except SystemExit:
+            status = "exit"
+        except Exception as e:  # noqa: BLE001
+            status = f"script raised {type(e).__name__}"
+        finally:
+            os.chdir(cwd)
+            pym.minimize_mma, pym.minimize_oc = o_mma, o_oc
+            try:
+                import matplotlib.pyplot as plt
+                plt.close("all")
+            except Exception:
+                pass
+    calls = STATE.counters["mon_response"] + STATE.counters["mon_sensitivity"] - before
+    ctx.count("example_monitored_calls", calls)
+    ctx.count("examples_" + ("completed" if status == "completed" else "not_completed"))
+    return {"key": "example/" + case["script"] + "/" + "x".join(map(str, case["mesh"])), "nontrivial": calls > 10,
+            "obs": {"script": case["script"], "status": status, "monitored_calls": calls}}
 
 
 def _states(mod):
@@ -69,6 +140,8 @@ def _cmp(ga, gb):
 
 
 def run_case(case, ctx):
+    if case["family"] == "example":
+        return run_example(case, ctx)
     rng = ctx.rng("c04", case["family"], case["i"])
     with warnings.catch_warnings():
         warnings.simplefilter("ignore")
